@@ -34,6 +34,7 @@ type FuncSpec struct {
 	Params    []string
 	Model     string
 	Optional  bool
+	GhostInits [][2]string // scalar ghost assignments at entry
 	GhostSets [][3]string // ghost assignments at return: name, key expr, value expr
 	Harness   bool // implementer that exists only for lemma harnesses: dispatched to only inside lemmas
 	Mode      string // int | bv
@@ -247,23 +248,41 @@ func (ss *SpecSet) parseFile(path string) error {
 			cur.MayPanic = true
 		case "tags":
 			cur.Tags = tags
+		case "ghostinit":
+			// ghostinit $name = expr : scalar ghost assignment performed when the function is entered
+			eq := strings.Index(rest, "=")
+			if cur == nil || eq < 0 || !strings.HasPrefix(strings.TrimSpace(rest), "$") {
+				return fail("ghostinit $name = expr")
+			}
+			cur.GhostInits = append(cur.GhostInits, [2]string{strings.TrimSpace(rest[1:eq]), strings.TrimSpace(rest[eq+1:])})
 		case "ghostset":
 			// ghostset NAME[key] = expr : ghost assignment performed when the function returns (specification-only state)
 			if cur == nil {
 				return fail("ghostset outside func")
 			}
 			eq := strings.Index(rest, "=")
-			lb := strings.Index(rest, "[")
-			rb := strings.LastIndex(rest[:eq], "]")
-			if eq < 0 || lb < 0 || rb < lb {
+			if eq < 0 {
 				return fail("ghostset NAME[key] = expr")
 			}
-			name := strings.TrimSpace(rest[:lb])
-			key := strings.TrimSpace(rest[lb+1 : rb])
+			var name, key string
 			val := strings.TrimSpace(rest[eq+1:])
-			cur.HasMod = cur.HasMod || false
+			text := ""
+			if strings.HasPrefix(strings.TrimSpace(rest), "$") {
+				// scalar ghost: ghostset $name = expr
+				name = strings.TrimSpace(rest[1:eq])
+				text = "$" + name + " == (" + val + ")"
+			} else {
+				lb := strings.Index(rest, "[")
+				rb := strings.LastIndex(rest[:eq], "]")
+				if lb < 0 || rb < lb {
+					return fail("ghostset NAME[key] = expr")
+				}
+				name = strings.TrimSpace(rest[:lb])
+				key = strings.TrimSpace(rest[lb+1 : rb])
+				text = name + "(" + key + ") == (" + val + ")"
+			}
 			cur.GhostSets = append(cur.GhostSets, [3]string{name, key, val})
-			c, err := mk("ensures", name+"("+key+") == ("+val+")")
+			c, err := mk("ensures", text)
 			if err != nil {
 				return err
 			}
